@@ -43,7 +43,7 @@ func runC01(c *core.Ctx) {
 	}
 	c.Doc("C01.new-message", "NewMessage sets Header.Size to len(payload)", 1)
 	ruleNewMessage(c)
-	c.Doc("C01.limits", "every comparison with a size limit bounds the size itself and accepts the limit (writer, reader and siblings agree)", 8)
+	c.Doc("C01.limits", "every comparison with a size limit bounds the size itself and accepts the limit (writer, reader and siblings agree)", 5)
 	ruleLimitComparisons(c, "C01.limits")
 }
 
